@@ -18,6 +18,7 @@ import (
 	"strings"
 	"testing"
 
+	eth2spec "github.com/attestantio/go-eth2-client/spec"
 	eth2p0 "github.com/attestantio/go-eth2-client/spec/phase0"
 
 	"github.com/obolnetwork/charon/core"
@@ -33,8 +34,34 @@ type c14case struct {
 	data core.SignedData
 }
 
+// legacyAtt is an attestation without validator index (legacy SSZ layout) for the given slot.
+func legacyAtt(t *testing.T, version eth2spec.DataVersion, slot eth2p0.Slot) core.SignedData {
+	att := testutil.RandomPhase0Attestation()
+	att.Data.Slot = slot
+	va := &eth2spec.VersionedAttestation{Version: version}
+	switch version {
+	case eth2spec.DataVersionPhase0:
+		va.Phase0 = att
+	case eth2spec.DataVersionCapella:
+		va.Capella = att
+	default:
+		va.Version = eth2spec.DataVersionDeneb
+		va.Deneb = att
+	}
+	d, err := core.NewVersionedAttestation(va)
+	if err != nil {
+		t.Fatal(err)
+	}
+	return d
+}
+
 func c14cases(t *testing.T) []c14case {
 	return []c14case{
+		{"att-legacy-phase0", core.DutyAttester, legacyAtt(t, eth2spec.DataVersionPhase0, 1000000)},
+		{"att-legacy-capella", core.DutyAttester, legacyAtt(t, eth2spec.DataVersionCapella, 7)},
+		{"att-legacy-deneb-slot20", core.DutyAttester, legacyAtt(t, eth2spec.DataVersionDeneb, 20)},
+		{"att-legacy-deneb-slot12", core.DutyAttester, legacyAtt(t, eth2spec.DataVersionDeneb, 12)},
+		{"att-legacy-deneb-slot20hi", core.DutyAttester, legacyAtt(t, eth2spec.DataVersionDeneb, 20+(1<<32))},
 		{"att-deneb", core.DutyAttester, testutil.RandomDenebCoreVersionedAttestation()},
 		{"att-electra", core.DutyAttester, testutil.RandomElectraCoreVersionedAttestation()},
 		{"att-fulu", core.DutyAttester, testutil.RandomFuluCoreVersionedAttestation()},
